@@ -25,7 +25,20 @@ func devExec(args []string) {
 			if strings.Contains(src, "fun main(") {
 				kind = "script"
 			}
-			t := n.Exec(ExecReq{Kind: kind, Source: src, Signers: []uint64{1, 2}, Salt: uint64(k)}, true)
+			signers := []uint64{1, 2}
+			if strings.HasPrefix(src, "//deploy ") {
+				// "//deploy 0x2 Name" + contract source
+				var a uint64
+				var name string
+				fmt.Sscanf(strings.SplitN(src, "\n", 2)[0], "//deploy 0x%x %s", &a, &name)
+				src = DeployTx(name, strings.SplitN(src, "\n", 2)[1])
+				signers = []uint64{a}
+			} else if strings.HasPrefix(src, "//signers 1") {
+				signers = []uint64{1}
+			} else if strings.HasPrefix(src, "//restart") {
+				n.Restart()
+			}
+			t := n.Exec(ExecReq{Kind: kind, Source: src, Signers: signers, Salt: uint64(k)}, true)
 			fmt.Printf("== %s #%d [%s] class=%s type=%s result=%s writes=%d calls=%d gauge=%d\n", f, k, engine, t.Class, t.ErrType, t.Result, len(t.Writes), len(t.Trace), t.GaugeN)
 			for _, o := range t.Obs {
 				fmt.Println("   obs", o)
@@ -152,4 +165,50 @@ func devC44Zoo(args []string) {
 			fmt.Println("  ", k, "=", clip(d[k], 200))
 		}
 	}
+}
+
+// devScenarios: sim scn [name-substring]  — runs every scenario alone on interp / vm / vmpeep and prints outcomes vs expectations.
+func devScenarios(args []string) {
+	filter := ""
+	if len(args) > 0 {
+		filter = args[0]
+	}
+	bad := 0
+	for _, sc := range scenarios {
+		if !strings.Contains(sc.Name, filter) {
+			continue
+		}
+		for _, engine := range []string{"interp", "vm", "vmpeep"} {
+			n := NewNode(NodeConfig{Name: "solo", Engine: engine, Cache: "warm", EnvReuse: true}, NewWorld())
+			if t := n.Exec(ExecReq{Kind: "tx", Source: DeployTx("World", WorldSrc), Signers: []uint64{1}}, true); t.Class != "ok" {
+				panic(t.Err)
+			}
+			for _, st := range scnPrelude() {
+				if t := n.Exec(ExecReq{Kind: "tx", Source: DeployTx(st.Name, st.Source), Signers: st.Signers}, true); t.Class != "ok" {
+					fmt.Printf("DEPLOY %s FAILED on %s: %v\n", st.Name, engine, t.Err)
+					bad++
+				}
+			}
+			for k, st := range sc.Steps(NewRng(7)) {
+				t := n.Exec(ExecReq{Kind: st.Kind, Source: st.Src, Signers: []uint64{ScnAcct}, Salt: uint64(k)}, true)
+				status := "ok"
+				switch {
+				case st.Fails != "" && (t.Class != "user" || !strings.Contains(t.ErrType, st.Fails)):
+					status = "BAD(expected failure " + st.Fails + ")"
+				case st.Fails == "" && t.Class != "ok":
+					status = "BAD(unexpected failure)"
+				case st.Expect != nil && len(st.Expect) > 0 && fmt.Sprint(t.Logs) != fmt.Sprint(st.Expect):
+					status = fmt.Sprintf("BAD(logs, expected %v)", st.Expect)
+				}
+				if status != "ok" {
+					bad++
+				}
+				fmt.Printf("%-28s #%d %-7s %s class=%s type=%s result=%s logs=%v events=%d\n", sc.Name, k, engine, status, t.Class, t.ErrType, clip(t.Result, 300), t.Logs, len(t.Events))
+				if status != "ok" && t.Err != nil {
+					fmt.Println(clip(t.Err.Error(), 1800))
+				}
+			}
+		}
+	}
+	fmt.Println("bad:", bad)
 }
